@@ -42,7 +42,7 @@ def body(tier: str, seed: int) -> int:
     ring_report(rep)
     native_assumptions(rep)
     rep.assume('[B only] mem_decide_storage (flat-window construction and copy-in of the loaded pages), the page hash table, build_run_result (tuple construction around last_ops_ring_to_list), run_measured_loop, Memory_set_words/add_segment AFTER a storage decision (API misuse): exercised by the bounded layout runs, not under contract')
-    rep.notes.append('Rep (R2 flat array, R3 word range, R4 validity soundness, R5 cache coherence, R6, normalisation) preserved on every path; ring content invariant ring[k % len] == ip of op k for the last min(writes, len) ops: established for the fresh ring, preserved by each op\'s store (ring_lemma), consumed by last_ops_ring_to_list (quick tier: the per-op store itself is proved by the ring lanes of C11 quick / C07 thorough)')
+    rep.notes.append('Rep (R2 flat array, R3 word range, R4 validity soundness, R5 cache coherence, R6, normalisation) preserved on every path; ring content invariant ring[k % len] == ip of op k for the last min(writes, len) ops: established for the fresh ring, preserved by each op\'s store (ring_lemma), consumed by last_ops_ring_to_list (the per-op store itself - unit_loop(run_paged_loop_impl, w, 1) - is discharged in the thorough tiers of C07 and C11; the quick tiers take it as the assumed loop contract)')
     th = tier == 'thorough'
     isolated.run(rep, 'directed', 0, seed)
     isolated.run(rep, 'layouts', 6000 if th else 500, seed)
